@@ -32,22 +32,23 @@ type Expr struct {
 }
 
 var (
-	identRe  = regexp.MustCompile(`^[a-zA-Z][a-zA-Z0-9_/]*$`)
-	digitsRe = regexp.MustCompile(`^[0-9]+$`)
-	segRe    = regexp.MustCompile(`^[\pL\pN\-_.~:|]+$`)
-	ptrLitRe = regexp.MustCompile(`^(/[\pL\pN\-_.~:|]+)*$`)
-	numRe    = regexp.MustCompile(`^-?(0|[1-9][0-9]*)(\.[0-9]+)?$`)
+	identRe     = regexp.MustCompile(`^[a-zA-Z][a-zA-Z0-9_/]*$`)
+	digitsRe    = regexp.MustCompile(`^[0-9]+$`)
+	segRe       = regexp.MustCompile(`^[\pL\pN\-_.~:|]+$`)
+	ptrLitRe    = regexp.MustCompile(`^(/[\pL\pN\-_.~:|]+)*$`)
+	bareIdentRe = regexp.MustCompile(`^[a-zA-Z][a-zA-Z0-9_/]*(\.([a-zA-Z][a-zA-Z0-9_/]*|[0-9]+))*$`)
+	numRe       = regexp.MustCompile(`^-?(0|[1-9][0-9]*)(\.[0-9]+)?$`)
 )
 
 var keywords = map[string]bool{"not": true, "and": true, "or": true, "in": true, "is": true, "any": true, "all": true, "as": true, "contains": true, "matches": true, "empty": true}
 
 // Style selects among the spellings the grammar admits.
 type Style struct {
-	Sel   string // "auto" (dotted where possible, brackets otherwise), "bracket", "backtick", "pointer"
-	Lit   string // "auto" (double-quoted unless that would be read as a JSON Pointer), "raw", "bare"
-	WS    string // "" single blanks, "wide" tabs/newlines/double blanks where blanks are allowed
-	Paren int    // redundant parentheses around every sub-expression (0..2)
-	Cont  bool   // spell in / not in as contains / not contains
+	Sel   string `json:"sel"`   // "auto" (dotted where possible, brackets otherwise), "bracket", "backtick", "pointer"
+	Lit   string `json:"lit"`   // "auto" (double-quoted unless that would be read as a JSON Pointer), "raw", "bare", "dq"
+	WS    string `json:"ws"`    // "" single blanks, "wide" tabs/newlines/double blanks, "tight" no blanks where optional
+	Paren int    `json:"paren"` // redundant parentheses around every sub-expression (0..2)
+	Cont  bool   `json:"cont"`  // spell in / not in as contains / not contains
 }
 
 // Quote spells s as a Go string literal in the given style, if it can.
@@ -61,6 +62,17 @@ func Quote(s string, style string) (string, error) {
 	case "bare":
 		if !numRe.MatchString(s) {
 			return "", fmt.Errorf("not a number literal")
+		}
+		return s, nil
+	case "ident":
+		// a bare word: read as a selector whose dotted spelling is the value
+		if !bareIdentRe.MatchString(s) {
+			return "", fmt.Errorf("not a bare word")
+		}
+		for _, p := range strings.Split(s, ".") {
+			if keywords[p] {
+				return "", fmt.Errorf("keyword")
+			}
 		}
 		return s, nil
 	case "dq":
@@ -108,7 +120,8 @@ func RenderSel(s *Sel, style string) (string, error) {
 		b.WriteString(`"`)
 		return b.String(), nil
 	}
-	if style == "pointer" || s.Ty == "ptr" {
+	if style == "pointer" || s.Ty == "ptr" || s.Path[0] == "not" {
+		// a selector that starts with the word not would be read as the operator
 		return pointer()
 	}
 	if !identRe.MatchString(s.Path[0]) {
@@ -143,19 +156,23 @@ var opText = map[string]string{"==": "==", "!=": "!=", "in": "in", "notin": "not
 
 // Render spells the tree as bexpr source in the given style.
 func Render(e *Expr, st Style) (string, error) {
-	sp := " "
-	if st.WS == "wide" {
-		sp = " \t\n "
+	sp, osp := " ", " "
+	switch st.WS {
+	case "wide":
+		sp, osp = " \t\n ", "\n \t"
+	case "tight":
+		osp = ""
 	}
-	s, err := render(e, st, sp, 0)
-	return s, err
+	return render(e, st, sp, osp, 0)
 }
 
-// precedence levels: 0 or, 1 and, 2 not / primary
-func render(e *Expr, st Style, sp string, ctx int) (string, error) {
+func words(op, sp string) string { return strings.ReplaceAll(op, " ", sp) }
+
+// precedence levels: 0 or, 1 and, 2 not / primary.  sp is a mandatory blank, osp an optional one.
+func render(e *Expr, st Style, sp, osp string, ctx int) (string, error) {
 	wrap := func(s string, n int) string {
 		for i := 0; i < n; i++ {
-			s = "(" + s + ")"
+			s = "(" + osp + s + osp + ")"
 		}
 		return s
 	}
@@ -168,27 +185,33 @@ func render(e *Expr, st Style, sp string, ctx int) (string, error) {
 		var out string
 		switch e.Op {
 		case "empty", "notempty":
-			out = sel + sp + strings.ReplaceAll(opText[e.Op], " ", sp)
+			out = sel + sp + words(opText[e.Op], sp)
 		case "in", "notin":
 			v, err := Quote(e.Val, litStyle(st.Lit, e.Val))
 			if err != nil {
 				return "", err
 			}
 			if st.Cont {
-				out = sel + sp + strings.ReplaceAll(strings.Replace(opText[e.Op], "in", "contains", 1), " ", sp) + sp + v
+				out = sel + sp + words(strings.Replace(opText[e.Op], "in", "contains", 1), sp) + sp + v
 			} else {
-				out = v + sp + strings.ReplaceAll(opText[e.Op], " ", sp) + sp + sel
+				out = v + sp + words(opText[e.Op], sp) + sp + sel
 			}
+		case "==", "!=":
+			v, err := Quote(e.Val, litStyle(st.Lit, e.Val))
+			if err != nil {
+				return "", err
+			}
+			out = sel + osp + opText[e.Op] + osp + v
 		default:
 			v, err := Quote(e.Val, litStyle(st.Lit, e.Val))
 			if err != nil {
 				return "", err
 			}
-			out = sel + sp + strings.ReplaceAll(opText[e.Op], " ", sp) + sp + v
+			out = sel + sp + words(opText[e.Op], sp) + sp + v
 		}
 		return wrap(out, st.Paren), nil
 	case "not":
-		in, err := render(e.E, st, sp, 2)
+		in, err := render(e.E, st, sp, osp, 2)
 		if err != nil {
 			return "", err
 		}
@@ -203,11 +226,11 @@ func render(e *Expr, st Style, sp string, ctx int) (string, error) {
 			lv = 1
 		}
 		// the grammar is right-recursive: the left operand must bind tighter
-		l, err := render(e.L, st, sp, lv+1)
+		l, err := render(e.L, st, sp, osp, lv+1)
 		if err != nil {
 			return "", err
 		}
-		r, err := render(e.R, st, sp, lv)
+		r, err := render(e.R, st, sp, osp, lv)
 		if err != nil {
 			return "", err
 		}
@@ -225,7 +248,7 @@ func render(e *Expr, st Style, sp string, ctx int) (string, error) {
 		if err != nil {
 			return "", err
 		}
-		in, err := render(e.E, st, sp, 0)
+		in, err := render(e.E, st, sp, osp, 0)
 		if err != nil {
 			return "", err
 		}
@@ -234,13 +257,18 @@ func render(e *Expr, st Style, sp string, ctx int) (string, error) {
 		case "default":
 			bind = e.N1
 		case "index":
-			bind = e.N1 + "," + sp + "_"
+			bind = e.N1 + osp + "," + osp + "_"
 		case "value":
-			bind = "_," + sp + e.N2
+			bind = "_" + osp + "," + osp + e.N2
 		case "both":
-			bind = e.N1 + "," + sp + e.N2
+			bind = e.N1 + osp + "," + osp + e.N2
 		}
-		out := e.Op + sp + sel + sp + "as" + sp + bind + sp + "{" + sp + in + sp + "}"
+		// a bare number must be followed by a blank, ")" or the end of input
+		cl := osp
+		if cl == "" && len(in) > 0 && in[len(in)-1] >= '0' && in[len(in)-1] <= '9' {
+			cl = " "
+		}
+		out := e.Op + sp + sel + sp + "as" + sp + bind + osp + "{" + osp + in + cl + "}"
 		// a quantifier is only reachable as a whole or-operand, the whole input, or inside parentheses
 		if ctx > 0 || st.Paren > 0 {
 			n := st.Paren
@@ -266,6 +294,9 @@ func litStyle(style, v string) string {
 		return "auto"
 	}
 	if style == "bare" && !numRe.MatchString(v) {
+		if _, err := Quote(v, "ident"); err == nil {
+			return "ident"
+		}
 		return "auto"
 	}
 	if style == "raw" {
